@@ -37,12 +37,29 @@ def main():
         print('INFRA-ERROR %s: %s' % (a.pid, e))
         ck.cleanup()
         rc = 2
-    except Exception:
-        # a crash of the harness itself is tooling trouble, not a finding
+    except Exception as e:
+        tb = traceback.extract_tb(e.__traceback__)
+        in_repo = [f for f in tb if os.path.abspath(f.filename).startswith(os.path.abspath(lib.REPO) + os.sep)]
         traceback.print_exc()
-        print('INFRA-ERROR %s: harness exception' % a.pid)
-        ck.cleanup()
-        rc = 2
+        if in_repo and not a.replay:
+            # the exception was raised inside ReBench code that the harness drives: the implementation no longer
+            # behaves as the correspondence assumes (on the unchanged tree this never happens). That is a broken
+            # correspondence, reported as such; the replay names the call that failed.
+            path = ck._write_replay('crash', {
+                'property': a.pid, 'seed': seed, 'tier': a.tier, 'kind': 'correspondence-broken',
+                'correspondence': 'the harness of %s drives ReBench code that raised %s' % (a.pid, type(e).__name__),
+                'exception': '%s: %s' % (type(e).__name__, str(e)[:500]),
+                'raised_in': ['%s:%d %s' % (f.filename, f.lineno, f.name) for f in in_repo[-4:]],
+                'theorems_resting_on_it': ck.obligations,
+                'note': 'no failing input of the property was identified before the implementation raised'})
+            print('VIOLATION property=%s replay=%s no-failing-input-found' % (a.pid, path))
+            ck.cleanup()
+            rc = 1
+        else:
+            # a crash of the harness itself is tooling trouble, not a finding
+            print('INFRA-ERROR %s: harness exception' % a.pid)
+            ck.cleanup()
+            rc = 2
     sys.exit(rc)
 
 
